@@ -9,6 +9,120 @@ from ..tables import Tables
 
 
 def check(prog, rep):
+    rep.guarded(rule_model_bridges, prog, rep)
+    rep.guarded(_structural, prog, rep)
+    rep.guarded(rule_bridged_cells, prog, rep)
+
+
+def rule_bridged_cells(prog, rep):
+    """A bridged cysteine receives the force field's bridged-cysteine parameters at every chain position."""
+    from ..cells import amino_cells, ff_status
+    from ..tables import FFS
+    r = rep.rule("R9", "bridged cysteines are fully parameterised, neutral, at every chain position in every force field that defines them", floor=12)
+    t = Tables(prog.root)
+    model = Model(prog, t)
+    cells = [c for c in amino_cells(model, residues=["CYS"]) if c.state == "CYX" and c.pos != "N+C"]
+    for ff in FFS:
+        ffmap = t.ff(ff)
+        mid = next((c for c in cells if c.pos == "mid"), None)
+        if mid is None or ff_status(ffmap, mid)[0] != "full":
+            continue  # the force field has no bridged cysteine at all (reported by C12.R5 / C01.R6)
+        for c in cells:
+            st, miss, q = ff_status(ffmap, c)
+            # termini: compared with what the force field offers for a free cysteine at the same position
+            ok = st == "full" and abs(q - c.expected) <= 5e-4
+            if st != "full":
+                free = next((x for x in amino_cells(model, residues=["CYS"]) if x.state == "default" and x.pos == c.pos), None)
+                if free is not None and ff_status(ffmap, free)[0] != "full":
+                    continue  # this force field does not parameterise cysteine at that position at all
+            r.add(f"bridged|{ff}:{c.pos}", ok, f"{ff.upper()} {c.lookup}: {st}" + (f", missing {miss[:4]}" if miss else "") +
+                  (f", charge {q:+.4f} (formal {c.expected:+d})" if q is not None else ""), f"pdb2pqr/dat/{ff.upper()}.DAT / .names")
+
+
+def rule_model_bridges(prog, rep):
+    """update_ss_bridges is evaluated on an object model of a small structure that contains every case of the property's
+    quantifier: a bridge across chains, a bridge whose one partner the input already labels CYX, a free cysteine, a
+    cysteine without SG, a labelled thiolate, and a pair just beyond the limit - in two residue orders."""
+    import math
+    from ..guards import Flow, Obj
+    from ..objinterp import ObjRunner
+    r = rep.rule("R8", "model structure: exactly the sulfur pairs within the limit are bridged, symmetrically, in any residue order", floor=3)
+    fi = prog.func("biomolecule.py", "Biomolecule.update_ss_bridges")
+    where = f"pdb2pqr/biomolecule.py:{fi.node.lineno} (Biomolecule.update_ss_bridges)"
+    limit = prog.module_constants("config.py").get("BONDED_SS_LIMIT")
+    if not isinstance(limit, (int, float)):
+        raise AnalysisError("config.BONDED_SS_LIMIT does not fold to a number")
+    spec = [  # (id, class, label, chain, number, SG position or None)
+        ("c1", "CYS", "CYS", "A", 5, (0.0, 0.0, 0.0)), ("c2", "CYS", "CYS", "B", 30, (2.03, 0.0, 0.0)),
+        ("c3", "CYS", "CYX", "A", 12, (10.0, 0.0, 0.0)), ("c4", "CYS", "CYS", "A", 40, (10.0, 2.0, 0.3)),
+        ("c5", "CYS", "CYS", "A", 50, (20.0, 0.0, 0.0)), ("c6", "CYS", "CYS", "A", 51, None),
+        ("a7", "ALA", "ALA", "A", 52, None), ("c8", "CYS", "CYM", "A", 60, (40.0, 0.0, 0.0)),
+        ("c9", "CYS", "CYS", "C", 1, (60.0, 0.0, 0.0)), ("c10", "CYS", "CYS", "C", 2, (60.0, limit + 0.1, 0.0)),
+    ]
+    want = {frozenset(("c1", "c2")), frozenset(("c3", "c4"))}
+
+    def build(order):
+        residues, atoms = [], []
+        for rid, cls, label, chain, num, sg in order:
+            res = Obj({"__class__": cls, "name": label, "__id__": rid, "chain_id": chain, "res_seq": num, "atoms": [], "map": {},
+                       "ss_bonded": False, "ss_bonded_partner": None, "patches": [], "reference": None})
+            names = ["N", "CA", "C", "O", "CB"] + (["SG"] if sg else [])
+            for k, an in enumerate(names):
+                pos = sg if an == "SG" else (sg[0] + 1.5 + k if sg else 100.0 + num + k, 5.0, 5.0)
+                a = Obj({"__class__": "Atom", "name": an, "res_name": label, "chain_id": chain, "res_seq": num, "residue": res,
+                         "x": pos[0], "y": pos[1], "z": pos[2], "__props__": {"coords": lambda a_: [a_["x"], a_["y"], a_["z"]]}})
+                res["atoms"].append(a)
+                res["map"][an] = a
+                atoms.append(a)
+            residues.append(res)
+        return Obj({"__class__": "Biomolecule", "residues": residues, "atoms": atoms, "chains": []}), residues
+
+    results = {}
+    for oname, order in (("file order", spec), ("reversed", list(reversed(spec)))):
+        bio, residues = build(order)
+        patched = []
+
+        def extra(runner, interp, call, args, kw, patched=patched):
+            nm = U(call.func)
+            if nm == "math.dist" and len(args) == 2:
+                return math.sqrt(sum((a - b) ** 2 for a, b in zip(args[0], args[1])))
+            if isinstance(call.func, ast.Attribute) and call.func.attr == "apply_patch" and len(args) == 2:
+                patched.append((args[0], args[1]["__id__"]))
+                args[1]["patches"].append(args[0])
+                return None
+            return NotImplemented
+
+        run = ObjRunner(prog, "biomolecule.py", extra_hook=extra)
+        try:
+            run.call(bio, "update_ss_bridges")
+        except Flow as fl:
+            r.bad(f"model|{oname}|runs", f"update_ss_bridges stops with {fl.value} on the model structure", where)
+            continue
+        flagged = {x["__id__"] for x in residues if x["ss_bonded"]}
+        pairs = set()
+        asym = []
+        for x in residues:
+            p_ = x["ss_bonded_partner"]
+            if p_ is not None:
+                other = p_["residue"]
+                pairs.add(frozenset((x["__id__"], other["__id__"])))
+                back = other["ss_bonded_partner"]
+                if back is None or back["residue"] is not x or p_["name"] != "SG":
+                    asym.append(f"{x['__id__']} -> {other['__id__']} is not returned")
+        cyx = {rid for pn, rid in patched if pn == "CYX"}
+        exp_ids = {i for pr in want for i in pr}
+        ok = pairs == want and flagged == exp_ids and cyx == exp_ids and not asym
+        results[oname] = (sorted(map(sorted, pairs)), sorted(flagged))
+        r.add(f"model|{oname}", ok, f"{oname}: bridged pairs {sorted(map(sorted, pairs))}, flagged {sorted(flagged)}, CYX patch on {sorted(cyx)}"
+              + (f"; asymmetric: {asym}" if asym else "") + (f" -- expected exactly {sorted(map(sorted, want))} (sulfurs {limit} A apart or closer; "
+                                                            "a partner the input labels CYX is still a cysteine; chain and numbering play no role)" if not ok else ""), where)
+    if len(results) == 2:
+        a, b = results.values()
+        r.add("model|order-independent", a == b, f"the two residue orders give {'the same' if a == b else 'different'} bridges", where)
+    r.info["methods_interpreted"] = sorted(set(run.calls))
+
+
+def _structural(prog, rep):
     rep.explanation = (
         "pairing/alias analysis of Biomolecule.update_ss_bridges (symmetric partner update, uniform patch loop, "
         "limit constant and operator, independence from order/chain/numbering), guard tables of the consumers "
